@@ -41,12 +41,14 @@ def _b(x):
     return "TRUE" if x else "FALSE"
 
 
-def consts(emit=False, fixobs=False, kill=False, starts=(0,), max_sleeps=0, memo=False, all_orders=True, fix_restart_race=True):
+def consts(emit=False, fixobs=False, kill=False, starts=(0,), max_sleeps=0, memo=False, all_orders=True, fix_restart_race=True,
+           fix_loop_after_stop=True):
     """The CONSTANTS section of a cfg for Scheduler.tla.  kill / starts / max_sleeps / memo switch on the environment
     actions of the growth item G02 (external kill, restart from a later stage, sleep / wake-up, memoization answers);
     with the defaults the model is the one of a fresh launch without any of them."""
-    return ("CONSTANTS\n  Emit = %s\n  FixObs = %s\n  Kill = %s\n  Starts = {%s}\n  MaxSleeps = %d\n  Memo = %s\n  AllOrders = %s\n  FixRestartRace = %s\n" % (
-        _b(emit), _b(fixobs), _b(kill), ", ".join(str(int(x)) for x in starts), max_sleeps, _b(memo), _b(all_orders), _b(fix_restart_race)))
+    return ("CONSTANTS\n  Emit = %s\n  FixObs = %s\n  Kill = %s\n  Starts = {%s}\n  MaxSleeps = %d\n  Memo = %s\n  AllOrders = %s\n  FixRestartRace = %s\n  FixLoopAfterStop = %s\n" % (
+        _b(emit), _b(fixobs), _b(kill), ", ".join(str(int(x)) for x in starts), max_sleeps, _b(memo), _b(all_orders), _b(fix_restart_race),
+        _b(fix_loop_after_stop)))
 
 
 def model_check(tag, shape_names, props, invariants, fixobs=False, coverage=True, timeout=1700, workers=16, liveness=False,
@@ -99,12 +101,13 @@ def make_policy(sched):
     return ctl.RandomPolicy(seed_, burst_max=abs(bm), env_bias=eb, ctrl_weight=cw, eager_internal=bm < 0, **env)
 
 
-def run_real(cases, schedules, scratch, base_seed, per_shape_budget=None, env_for=None, catch_crash=False):
+def run_real(cases, schedules, scratch, base_seed, per_shape_budget=None, env_for=None, catch_crash=False, light=False):
     """Runs every case under seeded random schedules on the real Controller. Returns list of harnesses.
     `schedules` per case; with per_shape_budget, shapes with few cases get more schedules per case (<= 3x).
     A case is (sid, shape, oa) or (sid, shape, oa, extra) with extra = dict(start=k, memo=[node names], nopop=[..]).
     env_for(ci, k) -> dict(kill_p=.., sleep_p=.., wake_p=.., max_sleeps=..) or None: the calls into the controller from
-    outside (external kill, sleep / wake-up) the schedule k of case ci is allowed to make."""
+    outside (external kill, sleep / wake-up) the schedule k of case ci is allowed to make.
+    light: return sched_trace.RunRecord objects (plain data) instead of the harnesses."""
     from . import ctl
     runs = []
     per_shape = {}
@@ -122,13 +125,16 @@ def run_real(cases, schedules, scratch, base_seed, per_shape_budget=None, env_fo
             sched = (base_seed * 1000003 + ci * 101 + k, bm, eb, cw) + ((env,) if env else ())
             h = ctl.run_case(sn, oa, scratch, make_policy(sched), catch_crash=catch_crash, **extra)
             h.sid, h.case_index, h.sched, h.extra = sid, ci, sched, extra
-            runs.append(h)
+            # light: keep only the recorded data (picklable, and the real objects of the run can be collected)
+            runs.append(ctl.to_record(h) if light else h)
     return runs
 
 
-TRACE_PROPS = ("TFinalAbsorbing", "TNoRunAfterFinal", "TNoLaunchAfterStop", "TNoLaunchWhileAsleep", "TNoStageInWhileAsleep")
+TRACE_PROPS = ("TFinalAbsorbing", "TNoRunAfterFinal", "TNoLaunchAfterStop", "TNoLaunchWhileAsleep", "TNoStageInWhileAsleep",
+               "TLoopConsumerWaits")
 TRACE_INVS = ("TypeOK", "DoneImpliesFinal", "RunOnlyStaged", "RestartBound", "KillReachesAll", "SkippedUntouched", "StageFromStart",
-              "PostponedRecorded", "FailureHandled", "MemoNeverRuns", "MemoEndsFinished", "MemoOfferedNeverRuns")
+              "PostponedRecorded", "FailureHandled", "MemoNeverRuns", "MemoEndsFinished", "MemoOfferedNeverRuns",
+              "NonLiveUntouched", "LiveIterations", "IterationJustified")
 
 
 def validate_traces(tag, shape_names, runs, props=("TLaunchSafeModuloKnown",) + TRACE_PROPS,
@@ -139,7 +145,7 @@ def validate_traces(tag, shape_names, runs, props=("TLaunchSafeModuloKnown",) + 
     specification is false on the logged real states.  TLC runs with -continue: one invocation per batch reports every
     run that violates a property (the first violation per run is kept) and, through the postcondition, every rejected run."""
     import re
-    from . import ctl
+    from . import sched_trace as ctl          # rendering a recorded run needs no import of the runtime
     results = [None] * len(runs)
     tlcs = []
     for b0 in range(0, len(runs), batch):
